@@ -651,5 +651,8 @@ func (x *Exec) traceStep(tr *trans) {
 	if tr.cost > 0 {
 		s += fmt.Sprintf(" [dev+%d]", tr.cost)
 	}
+	if t.site != "" {
+		s += "   @ " + t.site
+	}
 	*x.trace = append(*x.trace, s)
 }
